@@ -47,7 +47,12 @@ def scan_headers(out_dir):
     return info
 
 
-def c_harness(info, msg_order, kinds):
+def hist_mask(kind, width):
+    """Bits of the history value pattern a member can hold (non-negative in a signed member)."""
+    return (1 << max(0, min(7, width - (1 if kind == "i" else 0)))) - 1
+
+
+def c_harness(info, msg_order, kinds, widths=None):
     """msg_order: [pascal names]; kinds: {pascal: {member name: 'u'|'i'|'f32'|'f64'|'enum'}}.
 
     Protocol (one command per stdin line, '#<n>' echoed and flushed before executing line n):
@@ -55,7 +60,9 @@ def c_harness(info, msg_order, kinds):
                    'F id dlc data', then decode that frame and print 'V v...'
       D <m> <16 hex>  decode an arbitrary frame, print 'V v...'
       H <d> t...   run a scheduler history on device d in a forked child; before call j every
-                   integer member k of message i is set to (j*17 + i*31 + k*7) & 0x7f;
+                   integer member k of message i is set to (J*17 + i*31 + k*7) & 0x7f (cut to the member's width),
+                   where J = j for the LAST integer member of a message and j/3 for the others - so on two
+                   calls out of three only the last member of every message changes;
                    prints 'S j id dlc data' per transmitted frame and 'X' at the end
       G 0 t...     the same, but EVERY device's scheduler is called (in device order) with each timestamp
     """
@@ -101,9 +108,11 @@ def c_harness(info, msg_order, kinds):
         out.append("static void step_%d(CanDevice%s *dev, int j, uint32_t t){ g_call=j;" % (di, dev))
         for i, (mtype, mname) in enumerate(d["members"]):
             pascal = mtype.replace("CanMsg", "", 1)
+            ints = [kk for kk, (_c, nn, _a) in enumerate(info["messages"][pascal]["members"]) if kinds[pascal][nn] in ("u", "i", "enum")]
             for kidx, (ctype, name, arr) in enumerate(info["messages"][pascal]["members"]):
                 if kinds[pascal][name] in ("u", "i", "enum"):
-                    out.append("    dev->%s.%s = (%s)((j*17 + %d*31 + %d*7) & 0x7f);" % (mname, name, ctype, i, kidx))
+                    mask = hist_mask(kinds[pascal][name], (widths or {}).get(pascal, {}).get(name, 64))
+                    out.append("    dev->%s.%s = (%s)(((%s)*17 + %d*31 + %d*7) & 0x7f & %d);" % (mname, name, ctype, "j" if kidx == ints[-1] else "j/3", i, kidx, mask))
         out.append("    can_send_%s_msgs_scheduled(dev, t, cb); }" % d["sched"])
         out.append("static void hist_%d(char **tok, int n){ CanDevice%s dev; memset(&dev,0,sizeof(dev));" % (di, dev))
         out.append("  for (int j=0;j<n;j++){ uint32_t t=(uint32_t)strtoul(tok[j],NULL,10); step_%d(&dev, j, t); }" % di)
